@@ -542,9 +542,10 @@ class ImmutableVersion(dns.zone.Version):
                 len(origin),
             )
             right_key = None
-        closest_encloser = dns.name.Name(
-            name[-max(left_comparison[2], right_comparison[2]) :]
-        )
+        # Not name[-n:], as that is the whole name when n is 0 (which happens in
+        # a relativized zone when the closest encloser is the origin).
+        n = max(left_comparison[2], right_comparison[2])
+        closest_encloser = dns.name.Name(name[len(name) - n :])
         return Bounds(
             name,
             left.key(),
